@@ -271,8 +271,21 @@ def splitters(tier):
     return out
 
 
+def comb_blocked(setup=6, n_pal=3, until=24, order="nodes_first", cpd=None, dpd=None):
+    """combiner whose out-edge stays full for a while (consumer still in its set-up period), ingredients waiting upstream"""
+    nodes = [src("SP", n=n_pal, flow="pallet", iat=[0.5, 1]), src("SI", n=n_pal, iat=[0.5, 1]),
+             {"t": "combiner", "id": "C", "recipe": [1, 1], "pd": ("call", cpd or [2, 1]), "blocking": True},
+             mach("D", pd=dpd or [0.5, 1], setup=setup), sink("K")]
+    edges = [buf("P", "SP", "C", cap=3), buf("I", "SI", "C", cap=3), buf("OUT", "C", "D", cap=1), buf("Z", "D", "K", cap=2)]
+    return {"nodes": nodes, "edges": edges, "until": until, "order": order, "family": "comb_blocked",
+            "tag": "comb_blocked(su%s,n%d,%s)" % (setup, n_pal, order)}
+
+
 def combiners(tier):
     out = []
+    out.append(comb_blocked())
+    out.append(comb_blocked(setup=9, n_pal=4, cpd=[3, 1], dpd=[0.5]))
+    out.append(comb_blocked(order="reversed"))
     for recipe in ((1, 1), (1, 2), (1, 1, 1), (1, 0)):
         out.append(comb_split(recipe))
     out.append(comb_split((1, 2), sinks=2, out_pol="ROUND_ROBIN"))
@@ -355,18 +368,39 @@ def invalid_configs(tier):
     c = base(); c["nodes"][1]["out_pol"] = ("call", [2]); c["why"] = "machine out-edge callable answers 2 with one edge"; out.append(c)
     c = base(); c["nodes"][1]["in_pol"] = ("gen", [1]); c["why"] = "machine in-edge generator answers 1 with one edge"; out.append(c)
     c = base(); c["nodes"][0]["out_pol"] = ("call", [1]); c["why"] = "source out-edge callable answers 1 with one edge"; out.append(c)
+    # negative answers of user selectors must not wrap around to the last edge
+    for why, f in (("source out-edge callable answers -1 with two out-edges", lambda c: c["nodes"][0].__setitem__("out_pol", ("call", [-1]))),
+                   ("source out-edge generator answers -2 with two out-edges", lambda c: c["nodes"][0].__setitem__("out_pol", ("gen", [-2])))):
+        c = fan(2, "FIRST_AVAILABLE", "source", True, n=3, until=8)
+        f(c); c["why"] = why; out.append(c)
+    for why, key, val in (("machine out-edge callable answers -1 with two out-edges", "out_pol", ("call", [-1])),
+                          ("machine out-edge generator answers -2", "out_pol", ("gen", [-2])),
+                          ("machine in-edge callable answers -1 with two in-edges", "in_pol", ("call", [-1])),
+                          ("machine in-edge constant 2 with two in-edges", "in_pol", 2),
+                          ("machine out-edge constant 2 with two out-edges", "out_pol", 2)):
+        c = diamond(until=8)
+        for nd in c["nodes"]:
+            if nd["id"] == "M":
+                nd[key] = val
+        c["why"] = why; out.append(c)
     c = base(); c["nodes"][1]["wc"] = 0; c["why"] = "work_capacity 0"; out.append(c)
     c = base(); c["edges"][0] = edge("fleet", "E1", "S", "M", cap=0, delay=2, transit=1); c["why"] = "fleet capacity 0"; out.append(c)
     c = base(); c["edges"][0] = edge("fleet", "E1", "S", "M", cap=2, delay=2, transit=-1); c["why"] = "negative fleet transit delay"; out.append(c)
     c = base(); c["edges"][0] = edge("sconv", "E1", "S", "M", cap=0, delay=1, acc=1); c["why"] = "slotted conveyor capacity 0"; out.append(c)
     for i, x in enumerate(out):
         x["expect_error"] = True
+        x["expect_props"] = ["C20", "C15"] if "index" in x["why"] or "answers" in x["why"] or "constant" in x["why"] else ["C20"]
         x["family"] = "invalid"
         x["tag"] = "invalid(%s)" % x["why"]
     return out
 
 
+def invalid_indices(tier):
+    return [c for c in invalid_configs(tier) if "C15" in c["expect_props"]]
+
+
 FAMILIES["invalid"] = invalid_configs
+FAMILIES["invalid_indices"] = invalid_indices
 
 
 def c20_extra(tier):
